@@ -222,6 +222,45 @@ Theorem C11_every_path_query_equals_constraints :
 Proof. exact every_path_query_sem_gen. Qed.
 Print Assumptions C11_every_path_query_equals_constraints.
 
+(* ---- conditions vs solver.  The z3 solver of a path (used to prune infeasible branches,
+   never to build the query) holds nothing but what the solvers handed to Path(...) already
+   held and conditions of the path ... *)
+Theorem C11_solver_subset_of_conditions :
+  forall (cond : Type) (cond_eqb : cond -> cond -> bool) (simp : cond -> cond)
+         (is_true : cond -> bool) (vars : cond -> list Z) ops s0 p,
+    run cond cond_eqb simp is_true vars (empty_path cond s0) ops = Some p ->
+    forall c, In c (solver p) -> In c (bases cond s0 ops) \/ In c (map fst (conditions p)).
+Proof. exact solver_subset_of_conditions. Qed.
+Print Assumptions C11_solver_subset_of_conditions.
+
+(* ... all of them, in order, when no state on the way was sliced (regular tests): there
+   Path.solver mirrors Path.conditions; only extensions of sliced states hold less *)
+Theorem C11_solver_holds_all_when_unsliced :
+  forall (cond : Type) (cond_eqb : cond -> cond -> bool) (simp : cond -> cond)
+         (is_true : cond -> bool) (vars : cond -> list Z) ops s0 p,
+    run cond cond_eqb simp is_true vars (empty_path cond s0) ops = Some p ->
+    no_slice cond ops = true ->
+    solver p = (last_base cond s0 ops ++ map fst (conditions p))%list.
+Proof. exact solver_holds_all_when_unsliced. Qed.
+Print Assumptions C11_solver_holds_all_when_unsliced.
+
+(* the solver OBJECTS (shared by a path and its forks, with push / pop scopes): under the
+   exploration discipline of SEVM.run -- appends and forks come from the path running on the
+   solver, a waiting fork is activated when it is the most recent one (LIFO worklist) -- the
+   assertions held by every solver object are exactly the pure model's solver view of the
+   path running on it.  (`sched_run` = None for programs outside the discipline.) *)
+Theorem C11_solver_mirrors_running_path :
+  forall (cond : Type) (cond_eqb : cond -> cond -> bool) (simp : cond -> cond)
+         (is_true : cond -> bool) (vars : cond -> list Z) ops s0 h sc,
+    h_run cond cond_eqb simp is_true vars gen_modes (h_init cond s0) ops = Some h ->
+    sched_run cond sched_init ops = Some sc ->
+    exists ps, v_run cond cond_eqb simp is_true vars [empty_path cond s0] ops = Some ps /\
+      forall s i, nth_error (sc_current sc) s = Some i ->
+        exists hp p, nth_error (o_paths h) i = Some hp /\ nth_error ps i = Some p /\ hp_solver hp = s /\
+                     s_assertions cond (nth s (o_solvers h) []) = solver p.
+Proof. exact solver_mirrors_running_path_gen. Qed.
+Print Assumptions C11_solver_mirrors_running_path.
+
 (* non-vacuity of the object level: two transactions started from the same (sliced) state;
    what the first one appends is not in the query of the second one -- and it WOULD be
    there if extend_path handed over `conditions` without copying it (the model tells the
@@ -238,7 +277,13 @@ Example C11_objects_nonvacuous :
   map (accumulated Z) (lineages Z prog) = [[1]; [1; 2; 4]; [1; 2; 3]; [1; 5]] /\
   ids (mkModes MShallow MShallow MDeep MAlias MShallow MDeep)
     = [Some [101; 102; 104; 105]; Some [101; 102; 104; 105]; Some [101; 102; 103]; Some [101; 102; 104; 105]] /\
-  separate (mkModes MShallow MShallow MDeep MAlias MShallow MDeep) = false.
+  separate (mkModes MShallow MShallow MDeep MAlias MShallow MDeep) = false /\
+  (* the program follows the exploration discipline; the three solver objects hold: *)
+  option_map sc_current (sched_run Z sched_init prog) = Some [0; 2; 3]%nat /\
+  match h_run Z Z.eqb (fun c => c) (fun c => c =? 0) vars gen_modes (h_init Z []) prog with
+  | Some h => map (s_assertions Z) (o_solvers h) = [[1]; [1; 2; 3]; [1; 5]]
+  | None => False
+  end.
 Proof. vm_compute. repeat split; reflexivity. Qed.
 
 (* non-vacuity: the rules really rewrite the 264-bit remainder abstraction, the result
